@@ -1085,13 +1085,13 @@ func (l *lexer) skipComment() bool {
 	for {
 		r, err := l.read()
 		if err != nil {
-			l.comment()
+			l.addComment()
 			return err == io.EOF
 		}
 
 		if r == '\n' {
 			l.unread()
-			l.comment()
+			l.addComment()
 			l.mark(0)
 			return true
 		}
@@ -1647,23 +1647,31 @@ func (l *lexer) linebreak() bool {
 	for {
 		r, err := l.read()
 		if err != nil {
-			l.comment()
+			if hash {
+				l.addComment()
+			}
 			return false
 		}
 
 		switch r {
 		case '\n':
 			// <newline>
-			hash = false
-			l.comment()
+			if hash {
+				hash = false
+				l.addComment()
+			}
 			l.mark(0)
 			if l.heredoc.exists() && !l.readHeredocs() {
 				return false
 			}
 		case '#':
 			// comment
-			hash = true
-			l.mark(-1)
+			if hash {
+				l.b.WriteRune(r)
+			} else {
+				hash = true
+				l.mark(-1)
+			}
 		case '\t', ' ':
 			// <blank>
 			if hash {
@@ -1681,14 +1689,14 @@ func (l *lexer) linebreak() bool {
 	}
 }
 
-func (l *lexer) comment() {
-	if l.b.Len() != 0 {
-		l.comments = append(l.comments, &ast.Comment{
-			Hash: l.pos,
-			Text: l.b.String(),
-		})
-		l.b.Reset()
-	}
+// addComment records the comment that has just been scanned; its text
+// may be empty.
+func (l *lexer) addComment() {
+	l.comments = append(l.comments, &ast.Comment{
+		Hash: l.pos,
+		Text: l.b.String(),
+	})
+	l.b.Reset()
 }
 
 func (l *lexer) lit() {
